@@ -8,7 +8,7 @@ stack `s` and world `w` reaches the opcode word just after it with stack `s'` an
 namespace GoawkModel.C01
 variable {S : Sem}
 
-theorem Instr.size_pos (i : Instr) : 0 < i.size := by cases i <;> simp [Instr.size]
+theorem Instr.size_pos (i : Instr) : 0 < i.size := by cases i <;> simp [Instr.size] <;> omega
 
 @[simp] theorem csize_nil : csize [] = 0 := rfl
 @[simp] theorem csize_cons (i : Instr) (c : Code) : csize (i :: c) = i.size + csize c := rfl
@@ -125,6 +125,11 @@ variable (s : List S.V) (w : S.W) (v v0 v1 v2 l r i : S.V)
 @[simp] theorem ex_exitStatus : execInstr S .exitStatus (v :: s) w = some (.stopExit (S.setExit v w)) := rfl
 @[simp] theorem ex_print (n) : execInstr S (.print n) s w =
     if n ≤ s.length then (S.print (s.take n).reverse w).map fun w' => .next (s.drop n) w' else none := rfl
+@[simp] theorem ex_nulls (k) : execInstr S (.nulls k) s w = some (.next (List.replicate k S.nullV ++ s) w) := rfl
+@[simp] theorem ex_callUser (f nsc arrs) : execInstr S (.callUser f nsc arrs) s w =
+    if nsc ≤ s.length then (S.call f (s.take nsc).reverse arrs w).map fun r => .next (r.1 :: s.drop nsc) r.2 else none := rfl
+@[simp] theorem ex_ret : execInstr S .ret (v :: s) w = some (.stopRet v w) := rfl
+@[simp] theorem ex_retNull : execInstr S .retNull s w = some (.stopRet S.nullV w) := rfl
 @[simp] theorem condJump_true (off) : condJump S true off s w = .jump off s w := rfl
 @[simp] theorem condJump_false (off) : condJump S false off s w = .next s w := rfl
 end ExecEqs
